@@ -6,7 +6,7 @@
                   the result and changes nothing but the position;
      S  (sim)     simulation memo / no-memo with the invariant "every cache entry is what the
                   un-memoized interpreter returns at that position". *)
-From TxV Require Import Core.Base Model.PegSyntax Model.Peg Proofs.PegProofs.
+From TxV Require Import Core.Base Model.PegSyntax Model.Peg Proofs.PegProofs Proofs.PegFuel.
 
 Section Memo.
 Variable g : grammar.
@@ -16,124 +16,82 @@ Hypothesis H : ctx_constant g = true.
 
 Notation parser := (nat -> bool -> st -> out) (only parsing).
 
-Lemma no_comments : g_comments g = None.
+Lemma comment_node cm :
+  g_comments g = Some cm -> exists nd, get_node g cm = Some nd /\ is_match_kind (n_kind nd) = true.
 Proof.
-  unfold ctx_constant in H. apply andb_true_iff in H as [_ H2].
-  destruct (g_comments g); [discriminate | reflexivity].
+  intro E. unfold ctx_constant in H. apply andb_true_iff in H as [_ H2]. unfold comments_ok in H2.
+  rewrite E in H2. destruct (get_node g cm) as [nd|]; [|discriminate]. exists nd. auto.
 Qed.
 
-Lemma node_free4 nid nd :
-  get_node g nid = Some nd ->
-  n_ws nd = None /\ n_skipws nd = None /\ n_eolterm nd = false /\ is_unord (n_kind nd) = false.
+Lemma node_free nid nd :
+  get_node g nid = Some nd -> n_ws nd = None /\ n_skipws nd = None /\ n_eolterm nd = false.
 Proof.
   intro Hn. unfold ctx_constant in H. apply andb_true_iff in H as [H1 _].
   rewrite forallb_forall in H1. unfold get_node in Hn. apply nth_error_In in Hn.
   specialize (H1 _ Hn). unfold node_ctx_free in H1.
   destruct (n_ws nd); [discriminate|]. destruct (n_skipws nd); [discriminate|].
-  destruct (n_eolterm nd); [discriminate|]. destruct (is_unord (n_kind nd)); [discriminate|]. auto.
+  destruct (n_eolterm nd); [discriminate|]. auto.
 Qed.
-Lemma node_free nid nd :
-  get_node g nid = Some nd -> n_ws nd = None /\ n_skipws nd = None /\ n_eolterm nd = false.
-Proof. intro Hn. destruct (node_free4 _ _ Hn) as (A & B & C & _). auto. Qed.
+
+(* the Comment rule is a single terminal: tried in comment mode it is a function of the state that
+   does not involve the recursive parser (and is never memoized) *)
+Definition cjump (s1 : st) : st :=
+  match (if skipws s1 then lookup (pos s1) (cpos s1) else None) with
+  | Some p' => set_pos p' s1
+  | None => s1
+  end.
+Definition cterm (cm : nat) (s : st) : out :=
+  match get_node g cm with
+  | None => Abort 1
+  | Some nd =>
+    match term_parse input orc cm (n_kind nd) false (cjump (maybe_skip_ws input s)) with
+    | Ok r s3 => Ok (if n_suppress nd then RNone else r) s3
+    | o => o
+    end
+  end.
+Fixpoint cloop (cm k : nat) (s : st) : out :=
+  match k with
+  | 0 => Abort 0
+  | S k' =>
+    match cterm cm s with
+    | Ok _ s1 => cloop cm k' (maybe_skip_ws input s1)
+    | Fail s1 => Ok RNone s1
+    | Abort w => Abort w
+    end
+  end.
+
+
+(* [v] is the position at which the comment loop started at [k] ends (whitespace skipping off), whatever
+   the fuel and the rest of the state *)
+Definition CV (cm k v : nat) : Prop :=
+  forall f s r s2, in_cmt s = true -> skipws s = false -> pos s = k -> cloop cm f s = Ok r s2 -> pos s2 = v.
+
+(* state invariant of main-mode parsing: not inside comment parsing, and comment_positions entries are
+   never overwritten with a different value: with skipws they are written only when absent; without
+   skipws every entry is what re-computation gives (k |-> k without a comment model, the end of the
+   comment loop started at k otherwise) *)
+Definition cpos_ok (c : list (nat * nat)) : Prop :=
+  match g_comments g with
+  | None => cpos_id c
+  | Some cm => forall k v, lookup k c = Some v -> CV cm k v
+  end.
+Definition sinv (s : st) : Prop :=
+  in_cmt s = false /\ (skipws s = true \/ cpos_ok (cpos s)).
+
+Lemma skipws_reg_fail p s : skipws (reg_fail p s) = skipws s.
+Proof. unfold reg_fail. destruct (nm s); [destruct (in_cmt s); [|destruct (Nat.ltb _ _)]|]; reflexivity. Qed.
+Lemma sinv_reg_fail p s : sinv s -> sinv (reg_fail p s).
+Proof. unfold sinv. now rewrite in_cmt_reg_fail, skipws_reg_fail, cpos_reg_fail. Qed.
 
 Definition is_abort (o : out) : bool := match o with Abort _ => true | _ => false end.
 Definition ostate (d : st) (o : out) : st := match o with Ok _ s | Fail s => s | Abort _ => d end.
 Definition omap (f : st -> st) (o : out) : out :=
   match o with Ok r s => Ok r (f s) | Fail s => Fail (f s) | Abort w => Abort w end.
 
-(* ================================================================ Match.parse prefix *)
-Definition mpre (s : st) : st :=
-  let s1 := maybe_skip_ws input s in
-  match (if skipws s1 then lookup (pos s1) (cpos s1) else None) with
-  | Some p' => set_pos p' s1
-  | None => if in_cmt s1 then s1 else set_cpos (upd (pos s1) (pos s1) (cpos s1)) s1
-  end.
-
-Lemma match_pre_eq rec k s : match_pre g input rec k s = Ok RNone (mpre s).
-Proof.
-  unfold match_pre, mpre, parse_comments. rewrite no_comments.
-  set (s1 := maybe_skip_ws input s).
-  destruct (if skipws s1 then lookup (pos s1) (cpos s1) else None); [reflexivity|].
-  destruct (in_cmt s1) eqn:C; [reflexivity|].
-  f_equal. destruct s1; cbn in *; subst; reflexivity.
-Qed.
-
-Lemma msw_dom s : dom s (maybe_skip_ws input s).
-Proof. unfold maybe_skip_ws, do_skip_ws. destruct (skipws s); [apply dom_set_pos_r|]; apply dom_refl. Qed.
-Lemma msw_cpos s : cpos (maybe_skip_ws input s) = cpos s.
-Proof. unfold maybe_skip_ws, do_skip_ws. destruct (skipws s); reflexivity. Qed.
-
-Lemma mpre_good s : cpos_id (cpos s) -> dom s (mpre s) /\ cpos_id (cpos (mpre s)).
-Proof.
-  intro Hid. unfold mpre. pose proof (msw_dom s) as D. pose proof (msw_cpos s) as C.
-  set (s1 := maybe_skip_ws input s) in *.
-  destruct (if skipws s1 then lookup (pos s1) (cpos s1) else None).
-  - split; [now apply dom_set_pos_r | cbn; now rewrite C].
-  - destruct (in_cmt s1); [split; [assumption | now rewrite C]|].
-    split.
-    + eapply dom_trans; [exact D|]. constructor; try reflexivity.
-      * apply nm_le_refl.
-      * cbn. apply cpos_le_upd. now rewrite C.
-    + cbn. apply cpos_id_upd. now rewrite C.
-Qed.
-
-Lemma msw_rerun s s' :
-  dom s s' -> pos s' = pos s ->
-  maybe_skip_ws input s' = set_pos (pos (maybe_skip_ws input s)) s'.
-Proof.
-  intros D P. unfold maybe_skip_ws, do_skip_ws. rewrite (d_skip _ _ D), (d_ws _ _ D), P.
-  destruct (skipws s); [reflexivity|]. rewrite <- P. symmetry. apply set_pos_same.
-Qed.
-
-Lemma set_cpos_same s : set_cpos (cpos s) s = s.
-Proof. destruct s; reflexivity. Qed.
-
-Lemma mpre_rerun s s' :
-  cpos_id (cpos s) -> cpos_id (cpos s') -> dom (mpre s) s' -> pos s' = pos s ->
-  mpre s' = set_pos (pos (mpre s)) s'.
-Proof.
-  intros Hid Hid' D P.
-  assert (D0 : dom s s') by (eapply dom_trans; [apply (mpre_good s Hid) | exact D]).
-  unfold mpre in *. rewrite (msw_rerun s s' D0 P).
-  pose proof (msw_cpos s) as C.
-  set (s1 := maybe_skip_ws input s) in *.
-  assert (Hsk : skipws s1 = skipws s) by apply (d_skip _ _ (msw_dom s)).
-  assert (Hcm : in_cmt s1 = in_cmt s) by apply (d_cmt _ _ (msw_dom s)).
-  cbn [skipws pos cpos set_pos in_cmt]. rewrite (d_skip _ _ D0), (d_cmt _ _ D0), <- Hsk, <- Hcm.
-  destruct (skipws s1) eqn:SK.
-  - destruct (lookup (pos s1) (cpos s1)) as [p'|] eqn:L.
-    + (* first run jumped *)
-      rewrite (d_cpos _ _ D0 (pos s1) p') by (rewrite <- C; exact L).
-      cbn. now rewrite set_pos_set_pos.
-    + destruct (in_cmt s1) eqn:CM.
-      * (* inside comment parsing, entry absent in the first run *)
-        destruct (lookup (pos s1) (cpos s')) as [p''|] eqn:L'.
-        -- rewrite (Hid' _ _ L'). now rewrite set_pos_set_pos.
-        -- reflexivity.
-      * (* first run wrote the entry *)
-        assert (L' : lookup (pos s1) (cpos s') = Some (pos s1)).
-        { apply (d_cpos _ _ D). cbn. apply lookup_upd_same. }
-        rewrite L'. cbn. now rewrite set_pos_set_pos.
-  - destruct (in_cmt s1) eqn:CM; [reflexivity|].
-    assert (L' : lookup (pos s1) (cpos s') = Some (pos s1)).
-    { apply (d_cpos _ _ D). cbn. apply lookup_upd_same. }
-    cbn. rewrite (upd_idem _ _ _ L').
-    destruct s'; reflexivity.
-Qed.
-
-Lemma mpre_cache c s : mpre (set_cache c s) = set_cache c (mpre s).
-Proof.
-  destruct s as [p w rw sk eo ic n cp ca]. unfold mpre, maybe_skip_ws, do_skip_ws. cbn.
-  destruct sk; cbn.
-  - destruct (lookup _ cp); [reflexivity|]. destruct ic; reflexivity.
-  - destruct ic; reflexivity.
-Qed.
-
-
 (* ================================================================ terminals *)
 Definition good (s : st) (o : out) : Prop :=
   match o with
-  | Ok _ s1 | Fail s1 => dom s s1 /\ cpos_id (cpos s1)
+  | Ok _ s1 | Fail s1 => dom s s1 /\ sinv s1
   | Abort _ => True
   end.
 
@@ -149,14 +107,14 @@ Proof. destruct o; cbn; auto; intros [D C]; split; eauto using dom_set_pos_l_inv
 
 Ltac dm := match goal with |- context [match ?x with _ => _ end] => destruct x eqn:? end.
 
-Lemma good_ok s r p : cpos_id (cpos s) -> good s (Ok r (set_pos p s)).
+Lemma good_ok s r p : sinv s -> good s (Ok r (set_pos p s)).
 Proof. intro C. split; [apply dom_set_pos_r, dom_refl | exact C]. Qed.
-Lemma good_ok0 s r : cpos_id (cpos s) -> good s (Ok r s).
+Lemma good_ok0 s r : sinv s -> good s (Ok r s).
 Proof. intro C. split; [apply dom_refl | exact C]. Qed.
-Lemma good_raise s p : cpos_id (cpos s) -> good s (nm_raise p s).
-Proof. intro C. split; [apply dom_reg_fail | now rewrite cpos_reg_fail]. Qed.
+Lemma good_raise s p : sinv s -> good s (nm_raise p s).
+Proof. intro C. split; [apply dom_reg_fail | now apply sinv_reg_fail]. Qed.
 
-Lemma term_good nid k psq s : cpos_id (cpos s) -> good s (term_parse input orc nid k psq s).
+Lemma term_good nid k psq s : sinv s -> good s (term_parse input orc nid k psq s).
 Proof.
   intro C. unfold term_parse. destruct k; try exact I; repeat dm;
     auto using good_ok, good_ok0, good_raise.
@@ -194,15 +152,381 @@ Proof.
   destruct k; try reflexivity; repeat dm; cbn; try reflexivity; now rewrite reg_fail_cache.
 Qed.
 
+(* ================================================================ Match.parse prefix *)
+Lemma msw_dom s : dom s (maybe_skip_ws input s).
+Proof. unfold maybe_skip_ws, do_skip_ws. destruct (skipws s); [apply dom_set_pos_r|]; apply dom_refl. Qed.
+Lemma msw_cpos s : cpos (maybe_skip_ws input s) = cpos s.
+Proof. unfold maybe_skip_ws, do_skip_ws. destruct (skipws s); reflexivity. Qed.
+Lemma msw_rerun s s' :
+  dom s s' -> pos s' = pos s ->
+  maybe_skip_ws input s' = set_pos (pos (maybe_skip_ws input s)) s'.
+Proof.
+  intros D P. unfold maybe_skip_ws, do_skip_ws. rewrite (d_skip _ _ D), (d_ws _ _ D), P.
+  destruct (skipws s); [reflexivity|]. rewrite <- P. symmetry. apply set_pos_same.
+Qed.
+Lemma msw_cache c s : maybe_skip_ws input (set_cache c s) = set_cache c (maybe_skip_ws input s).
+Proof. unfold maybe_skip_ws, do_skip_ws. cbn. destruct (skipws s); reflexivity. Qed.
+Lemma set_cpos_same s : set_cpos (cpos s) s = s.
+Proof. destruct s; reflexivity. Qed.
+
+Definition cgood (s : st) (o : out) : Prop :=
+  match o with Ok _ s1 | Fail s1 => dom s s1 /\ cpos s1 = cpos s | Abort _ => True end.
+
+Lemma cjump_dom s : dom s (cjump s) /\ cpos (cjump s) = cpos s.
+Proof.
+  unfold cjump. destruct (if skipws s then lookup (pos s) (cpos s) else None);
+    split; auto using dom_set_pos_r, dom_refl.
+Qed.
+
+Lemma term_cgood nid k psq s : cgood s (term_parse input orc nid k psq s).
+Proof.
+  unfold term_parse, nm_raise. destruct k; try exact I; repeat dm; cbn;
+    auto using dom_set_pos_r, dom_refl, dom_reg_fail, cpos_reg_fail.
+Qed.
+
+Lemma cterm_good cm s : cgood s (cterm cm s).
+Proof.
+  unfold cterm. destruct (get_node g cm) as [nd|]; [|exact I].
+  destruct (cjump_dom (maybe_skip_ws input s)) as [D1 C1].
+  pose proof (term_cgood cm (n_kind nd) false (cjump (maybe_skip_ws input s))) as G.
+  destruct (term_parse input orc cm (n_kind nd) false (cjump (maybe_skip_ws input s))); cbn in G |- *; auto;
+    destruct G as [D2 C2]; (split; [eapply dom_trans; [apply msw_dom|]; eapply dom_trans; eassumption|]);
+    now rewrite C2, C1, msw_cpos.
+Qed.
+
+Lemma cloop_good cm k : forall s,
+  match cloop cm k s with Ok _ s1 => dom s s1 /\ cpos s1 = cpos s | Fail _ => False | Abort _ => True end.
+Proof.
+  induction k as [|k IH]; intro s; cbn [cloop]; [exact I|].
+  pose proof (cterm_good cm s) as G. destruct (cterm cm s) as [r s1|s1|w]; cbn in G; auto.
+  destruct G as [D1 C1]. specialize (IH (maybe_skip_ws input s1)).
+  destruct (cloop cm k (maybe_skip_ws input s1)); auto. destruct IH as [D2 C2].
+  split; [eapply dom_trans; [exact D1|]; eapply dom_trans; [apply msw_dom | exact D2]|].
+  now rewrite C2, msw_cpos.
+Qed.
+
+Lemma parse_cterm m f cm s :
+  g_comments g = Some cm -> in_cmt s = true ->
+  parse g input orc m (S f) cm false s = cterm cm s.
+Proof.
+  intros E IC. destruct (comment_node cm E) as (nd & Hn & MK).
+  cbn [parse]. unfold cterm. rewrite Hn, MK. unfold match_pre, cjump.
+  assert (IC1 : in_cmt (maybe_skip_ws input s) = true) by (rewrite (d_cmt _ _ (msw_dom s)); exact IC).
+  destruct (if skipws (maybe_skip_ws input s) then _ else None); [reflexivity|].
+  rewrite IC1. reflexivity.
+Qed.
+
+Lemma cmt_loop_eq m f cm : g_comments g = Some cm -> forall k s, in_cmt s = true ->
+  cmt_loop input (parse g input orc m (S f)) cm k s = cloop cm k s.
+Proof.
+  intros E. induction k as [|k IH]; intros s IC; cbn [cmt_loop cloop]; [reflexivity|].
+  rewrite (parse_cterm m f cm s E IC).
+  pose proof (cterm_good cm s) as G. destruct (cterm cm s) as [r s1|s1|w]; cbn in G; auto.
+  destruct G as [D1 _]. apply IH.
+  rewrite (d_cmt _ _ (msw_dom s1)), (d_cmt _ _ D1). exact IC.
+Qed.
+
+Definition mprec (f : nat) (s : st) : out :=
+  let s1 := maybe_skip_ws input s in
+  match (if skipws s1 then lookup (pos s1) (cpos s1) else None) with
+  | Some p' => Ok RNone (set_pos p' s1)
+  | None =>
+    if in_cmt s1 then Ok RNone s1
+    else match g_comments g with
+         | None => Ok RNone (set_cpos (upd (pos s1) (pos s1) (cpos s1)) s1)
+         | Some cm =>
+           match cloop cm f (set_in_cmt true s1) with
+           | Ok _ s2 => Ok RNone (set_cpos (upd (pos s1) (pos s2) (cpos s2)) (set_in_cmt false s2))
+           | Fail s2 => Fail s2
+           | Abort w => Abort w
+           end
+         end
+  end.
+
+Lemma match_pre_eq m f s : match_pre g input (parse g input orc m f) f s = mprec f s.
+Proof.
+  unfold match_pre, mprec, parse_comments.
+  set (s1 := maybe_skip_ws input s).
+  destruct (if skipws s1 then lookup (pos s1) (cpos s1) else None); [reflexivity|].
+  destruct (in_cmt s1) eqn:C; [reflexivity|].
+  destruct (g_comments g) as [cm|] eqn:E.
+  - destruct f as [|f]; [reflexivity|].
+    rewrite (cmt_loop_eq m f cm E (S f) (set_in_cmt true s1) eq_refl).
+    destruct (cloop cm (S f) (set_in_cmt true s1)); reflexivity.
+  - f_equal. destruct s1; cbn in *; subst; reflexivity.
+Qed.
+
+Lemma cpos_le_upd_absent k v c : lookup k c = None -> cpos_le c (upd k v c).
+Proof.
+  intros L k2 v2 L2. destruct (Nat.eq_dec k2 k) as [->|Hne]; [congruence|]. now rewrite lookup_upd_other.
+Qed.
+
+Definition rerun_ok (o : out) (s' : st) (o' : out) : Prop :=
+  is_abort o' = true \/ o' = omap (fun s1 => set_pos (pos s1) s') o.
+
+(* ---- the comment loop without whitespace skipping: a function of the position *)
+Lemma msw_nosk s : skipws s = false -> maybe_skip_ws input s = s.
+Proof. intro SK. unfold maybe_skip_ws. now rewrite SK. Qed.
+Lemma cjump_nosk s : skipws s = false -> cjump s = s.
+Proof. intro SK. unfold cjump. now rewrite SK. Qed.
+
+Definition same_shape (o o' : out) : Prop :=
+  match o, o' with
+  | Ok r s1, Ok r' s1' => r = r' /\ pos s1 = pos s1'
+  | Fail s1, Fail s1' => pos s1 = pos s1'
+  | Abort w, Abort w' => w = w'
+  | _, _ => False
+  end.
+
+Lemma term_shape nid k psq s s' : pos s = pos s' ->
+  same_shape (term_parse input orc nid k psq s) (term_parse input orc nid k psq s').
+Proof.
+  intro P. unfold term_parse, nm_raise. rewrite <- P.
+  destruct k; cbn; auto; repeat dm; cbn; auto; now rewrite !pos_reg_fail.
+Qed.
+
+Lemma cterm_shape cm s s' : skipws s = false -> skipws s' = false -> pos s = pos s' ->
+  same_shape (cterm cm s) (cterm cm s').
+Proof.
+  intros SK SK' P. unfold cterm. destruct (get_node g cm) as [nd|]; [|reflexivity].
+  rewrite !msw_nosk, !cjump_nosk by assumption.
+  pose proof (term_shape cm (n_kind nd) false s s' P) as T.
+  destruct (term_parse input orc cm (n_kind nd) false s), (term_parse input orc cm (n_kind nd) false s');
+    cbn in T |- *; auto. destruct T as [-> T]. auto.
+Qed.
+
+Lemma cloop_pos_det cm f : forall f' s s' r s2 r' s2',
+  skipws s = false -> skipws s' = false -> pos s = pos s' ->
+  cloop cm f s = Ok r s2 -> cloop cm f' s' = Ok r' s2' -> pos s2 = pos s2'.
+Proof.
+  induction f as [|f IH]; intros f' s s' r s2 r' s2' SK SK' P E E'; cbn [cloop] in E; [discriminate|].
+  destruct f' as [|f']; cbn [cloop] in E'; [discriminate|].
+  pose proof (cterm_shape cm s s' SK SK' P) as T.
+  pose proof (cterm_good cm s) as G. pose proof (cterm_good cm s') as G'.
+  destruct (cterm cm s) as [r1 s1|s1|w], (cterm cm s') as [r1' s1'|s1'|w']; cbn in T; try contradiction;
+    try discriminate.
+  - destruct T as [_ T]. destruct G as [D _], G' as [D' _].
+    assert (SK1 : skipws s1 = false) by (rewrite (d_skip _ _ D); exact SK).
+    assert (SK1' : skipws s1' = false) by (rewrite (d_skip _ _ D'); exact SK').
+    rewrite msw_nosk in E by assumption. rewrite msw_nosk in E' by assumption.
+    exact (IH f' s1 s1' r s2 r' s2' SK1 SK1' T E E').
+  - injection E as _ <-. injection E' as _ <-. exact T.
+Qed.
+
+Lemma CV_of_run cm f s r s2 :
+  in_cmt s = true -> skipws s = false -> cloop cm f s = Ok r s2 -> CV cm (pos s) (pos s2).
+Proof.
+  intros IC SK E f' s' r' s2' IC' SK' P E'. symmetry.
+  eapply cloop_pos_det; [exact SK | exact SK' | symmetry; exact P | exact E | exact E'].
+Qed.
+
+Lemma reg_fail_cmt p s : in_cmt s = true -> nm s <> None -> reg_fail p s = s.
+Proof. intros IC N. unfold reg_fail. destruct (nm s); [now rewrite IC | contradiction]. Qed.
+
+Lemma term_saturated nid k psq s : in_cmt s = true -> nm s <> None ->
+  match term_parse input orc nid k psq s with
+  | Ok _ s1 | Fail s1 => s1 = set_pos (pos s1) s
+  | Abort _ => True
+  end.
+Proof.
+  intros IC N. unfold term_parse, nm_raise. cbv zeta. rewrite ?(reg_fail_cmt (pos s) s IC N).
+  destruct k; auto.
+  - destruct (length input =? pos s); cbn; now rewrite set_pos_same.
+  - destruct (match oid with Some o => match orc o (pos s) with Some _ => true | None => false end
+                        | None => is_prefix s0 (skipn (pos s) input) end); cbn; auto.
+    now rewrite set_pos_same.
+  - destruct (orc oid (pos s)) as [len|]; [destruct (len =? 0)|]; cbn; auto; now rewrite set_pos_same.
+Qed.
+
+Lemma cloop_saturated cm f : forall s r s2,
+  in_cmt s = true -> skipws s = false -> nm s <> None ->
+  cloop cm f s = Ok r s2 -> s2 = set_pos (pos s2) s.
+Proof.
+  induction f as [|f IH]; intros s r s2 IC SK N E; cbn [cloop] in E; [discriminate|].
+  unfold cterm in E. destruct (get_node g cm) as [nd|]; [|discriminate].
+  rewrite msw_nosk, cjump_nosk in E by assumption.
+  pose proof (term_saturated cm (n_kind nd) false s IC N) as T.
+  destruct (term_parse input orc cm (n_kind nd) false s) as [r1 s1|s1|w]; try discriminate.
+  - assert (SK1 : skipws s1 = false) by (rewrite T; exact SK).
+    rewrite msw_nosk in E by assumption.
+    assert (E2 : s2 = set_pos (pos s2) s1).
+    { eapply IH; [| |  | exact E]; rewrite T; cbn; assumption. }
+    rewrite E2, T. cbn. now rewrite set_pos_set_pos.
+  - injection E as _ <-. exact T.
+Qed.
+
+Lemma term_fail_nm nid k psq s s1 : term_parse input orc nid k psq s = Fail s1 -> nm s1 <> None.
+Proof.
+  unfold term_parse, nm_raise. cbv zeta. intro E.
+  assert (F : s1 = reg_fail (pos s) s).
+  { destruct k; try discriminate E.
+    - destruct (length input =? pos s); [discriminate E | now injection E].
+    - destruct (match oid with Some o => match orc o (pos s) with Some _ => true | None => false end
+                          | None => is_prefix s0 (skipn (pos s) input) end); [discriminate E | now injection E].
+    - destruct (orc oid (pos s)) as [len|]; [destruct (len =? 0); discriminate E | now injection E]. }
+  subst s1. destruct (nm_reg_fail (pos s) s) as [q [Hq _]]. congruence.
+Qed.
+
+Lemma cloop_nm cm f : forall s r s2, cloop cm f s = Ok r s2 -> nm s2 <> None.
+Proof.
+  induction f as [|f IH]; intros s r s2 E; cbn [cloop] in E; [discriminate|].
+  destruct (cterm cm s) as [r1 s1|s1|w] eqn:EC; try discriminate.
+  - eapply IH; exact E.
+  - injection E as _ <-. unfold cterm in EC. destruct (get_node g cm) as [nd|]; [|discriminate].
+    destruct (term_parse input orc cm (n_kind nd) false (cjump (maybe_skip_ws input s))) as [r2 s3|s3|w] eqn:ET;
+      try discriminate. injection EC as <-. eapply term_fail_nm; exact ET.
+Qed.
+
+Lemma cpos_le_refl c : cpos_le c c.
+Proof. intros k v L; exact L. Qed.
+
+Lemma mprec_good f s : sinv s -> good s (mprec f s).
+Proof.
+  intros [IC SK]. unfold mprec. pose proof (msw_dom s) as D. pose proof (msw_cpos s) as C.
+  set (s1 := maybe_skip_ws input s) in *.
+  assert (IC1 : in_cmt s1 = false) by (rewrite (d_cmt _ _ D); exact IC).
+  assert (SK1 : skipws s1 = skipws s) by apply (d_skip _ _ D).
+  assert (S1 : sinv s1) by (split; [exact IC1 | now rewrite SK1, C]).
+  destruct (if skipws s1 then lookup (pos s1) (cpos s1) else None) eqn:L.
+  - split; [now apply dom_set_pos_r | exact S1].
+  - rewrite IC1. unfold sinv, cpos_ok in *. destruct (g_comments g) as [cm|] eqn:E.
+    + pose proof (cloop_good cm f (set_in_cmt true s1)) as G.
+      destruct (cloop cm f (set_in_cmt true s1)) as [r s2|s2|w] eqn:EL; try exact I; [|contradiction].
+      destruct G as [D2 C2]. cbn in C2.
+      assert (SK2 : skipws s2 = skipws s) by (rewrite (d_skip _ _ D2); cbn; exact SK1).
+      destruct SK as [SK|SK].
+      * (* skipws: the key is absent *)
+        rewrite SK1, SK in L. split.
+        -- eapply dom_trans; [exact D|]. destruct D2. constructor; cbn in *; auto.
+           rewrite C2. now apply cpos_le_upd_absent.
+        -- split; [reflexivity | left]. cbn. now rewrite SK2.
+      * destruct (skipws s) eqn:SKv.
+        { rewrite SK1 in L. split.
+          - eapply dom_trans; [exact D|]. destruct D2. constructor; cbn in *; auto.
+            rewrite C2. now apply cpos_le_upd_absent.
+          - split; [reflexivity | left]. cbn. exact SK2. }
+        (* no skipws: an existing entry already has this value *)
+        assert (CVn : CV cm (pos s1) (pos s2)).
+        { apply (CV_of_run cm f (set_in_cmt true s1) r s2); [reflexivity | cbn; now rewrite SK1 | exact EL]. }
+        assert (Hc : cpos_le (cpos s1) (upd (pos s1) (pos s2) (cpos s2)) /\
+                     (forall k v, lookup k (upd (pos s1) (pos s2) (cpos s2)) = Some v -> CV cm k v)).
+        { rewrite C2. split.
+          - destruct (lookup (pos s1) (cpos s1)) as [v0|] eqn:L0.
+            + rewrite C in L0. pose proof (SK _ _ L0) as CV0.
+              assert (v0 = pos s2).
+              { symmetry. apply (CV0 f (set_in_cmt true s1) r s2); [reflexivity | cbn; now rewrite SK1 | reflexivity | exact EL]. }
+              subst v0. rewrite <- C in L0. rewrite (upd_idem _ _ _ L0). apply cpos_le_refl.
+            + now apply cpos_le_upd_absent.
+          - intros k v Lk. destruct (Nat.eq_dec k (pos s1)) as [->|Hne].
+            + rewrite lookup_upd_same in Lk. injection Lk as <-. exact CVn.
+            + rewrite lookup_upd_other in Lk by assumption. rewrite C in Lk. now apply SK. }
+        destruct Hc as [Hle Hcv]. split.
+        -- eapply dom_trans; [exact D|]. destruct D2. constructor; cbn in *; auto.
+        -- split; [reflexivity | right]. cbn. unfold cpos_ok. rewrite E. exact Hcv.
+    + split.
+      * eapply dom_trans; [exact D|]. constructor; try reflexivity; [apply nm_le_refl|]. cbn.
+        destruct SK as [SK|SK].
+        -- rewrite SK1, SK in L. now apply cpos_le_upd_absent.
+        -- apply cpos_le_upd. now rewrite C.
+      * split; [exact IC1|]. cbn. destruct SK as [SK|SK]; [left; now rewrite SK1 | right].
+        unfold cpos_ok. rewrite E. apply cpos_id_upd. now rewrite C.
+Qed.
+
+Lemma mprec_rerun f f' s s' :
+  sinv s -> sinv s' -> is_abort (mprec f s) = false ->
+  dom (ostate s (mprec f s)) s' -> pos s' = pos s ->
+  rerun_ok (mprec f s) s' (mprec f' s').
+Proof.
+  intros [IC SK] [IC' SK'] NA D P.
+  assert (D0 : dom s s').
+  { pose proof (mprec_good f s (conj IC SK)) as G. destruct (mprec f s); try discriminate NA;
+      destruct G as [G _]; eapply dom_trans; eassumption. }
+  unfold mprec in *. rewrite (msw_rerun s s' D0 P).
+  pose proof (msw_cpos s) as C. pose proof (msw_dom s) as Dm.
+  set (s1 := maybe_skip_ws input s) in *.
+  assert (IC1 : in_cmt s1 = false) by (rewrite (d_cmt _ _ Dm); exact IC).
+  assert (SK1 : skipws s1 = skipws s) by apply (d_skip _ _ Dm).
+  cbn [skipws pos cpos set_pos in_cmt]. rewrite (d_skip _ _ D0), IC', <- SK1.
+  rewrite IC1 in *.
+  destruct (skipws s1) eqn:SKv.
+  - right. destruct (lookup (pos s1) (cpos s1)) as [p'|] eqn:L.
+    + rewrite (d_cpos _ _ D0 (pos s1) p') by (rewrite <- C; exact L).
+      cbn. now rewrite set_pos_set_pos.
+    + destruct (g_comments g) as [cm|] eqn:E.
+      * destruct (cloop cm f (set_in_cmt true s1)) as [r s2|s2|w] eqn:EL; try discriminate NA.
+        -- cbn in D.
+           assert (L' : lookup (pos s1) (cpos s') = Some (pos s2)).
+           { apply (d_cpos _ _ D). cbn. apply lookup_upd_same. }
+           rewrite L'. cbn. now rewrite set_pos_set_pos.
+        -- exfalso. pose proof (cloop_good cm f (set_in_cmt true s1)) as G. rewrite EL in G. exact G.
+      * cbn in D.
+        assert (L' : lookup (pos s1) (cpos s') = Some (pos s1)).
+        { apply (d_cpos _ _ D). cbn. apply lookup_upd_same. }
+        rewrite L'. cbn. now rewrite set_pos_set_pos.
+  - destruct (g_comments g) as [cm|] eqn:E.
+    + (* no skipws, Comment rule: the loop is run again and reproduces the entry *)
+      destruct (cloop cm f (set_in_cmt true s1)) as [r s2|s2|w] eqn:EL; try discriminate NA;
+        [|exfalso; pose proof (cloop_good cm f (set_in_cmt true s1)) as G; rewrite EL in G; exact G].
+      cbn in D.
+      assert (L' : lookup (pos s1) (cpos s') = Some (pos s2)).
+      { apply (d_cpos _ _ D). cbn. apply lookup_upd_same. }
+      set (t := set_in_cmt true (set_pos (pos s1) s')).
+      destruct (cloop cm f' t) as [r' s2'|s2'|w'] eqn:EL';
+        [| exfalso; pose proof (cloop_good cm f' t) as G; rewrite EL' in G; exact G | now left].
+      right. cbn [omap].
+      assert (SKt : skipws t = false) by (cbn; rewrite (d_skip _ _ D0); now rewrite <- SK1).
+      assert (Nt : nm t <> None).
+      { cbn. pose proof (cloop_nm cm f _ _ _ EL) as N2. pose proof (d_nm _ _ D) as Hn. cbn in Hn.
+        destruct (nm s2); [|contradiction]. destruct (nm s'); [discriminate | contradiction]. }
+      pose proof (cloop_saturated cm f' t r' s2' eq_refl SKt Nt EL') as Sat.
+      assert (Pv : pos s2' = pos s2).
+      { eapply (cloop_pos_det cm f' f t (set_in_cmt true s1)); [exact SKt | cbn; exact SKv | reflexivity | exact EL' | exact EL]. }
+      rewrite Sat, Pv. cbn. rewrite (upd_idem _ _ _ L'). f_equal.
+      destruct s'; cbn in *; subst; reflexivity.
+    + right. cbn in D.
+      assert (L' : lookup (pos s1) (cpos s') = Some (pos s1)).
+      { apply (d_cpos _ _ D). cbn. apply lookup_upd_same. }
+      cbn. rewrite (upd_idem _ _ _ L'). destruct s'; reflexivity.
+Qed.
+
+Lemma cterm_cache c cm s : cterm cm (set_cache c s) = omap (set_cache c) (cterm cm s).
+Proof.
+  unfold cterm. destruct (get_node g cm) as [nd|]; [|reflexivity].
+  rewrite msw_cache.
+  assert (J : cjump (set_cache c (maybe_skip_ws input s)) = set_cache c (cjump (maybe_skip_ws input s))).
+  { unfold cjump. cbn. destruct (if skipws (maybe_skip_ws input s) then _ else None); reflexivity. }
+  rewrite J, term_cache.
+  destruct (term_parse input orc cm (n_kind nd) false (cjump (maybe_skip_ws input s))); reflexivity.
+Qed.
+
+Lemma cloop_cache c cm k : forall s, cloop cm k (set_cache c s) = omap (set_cache c) (cloop cm k s).
+Proof.
+  induction k as [|k IH]; intro s; cbn [cloop]; [reflexivity|].
+  rewrite cterm_cache. destruct (cterm cm s) as [r s1|s1|w]; cbn [omap]; try reflexivity.
+  rewrite msw_cache. apply IH.
+Qed.
+
+Lemma mprec_cache c f s : mprec f (set_cache c s) = omap (set_cache c) (mprec f s).
+Proof.
+  unfold mprec. rewrite msw_cache. set (s1 := maybe_skip_ws input s).
+  cbn [skipws pos cpos set_cache in_cmt].
+  destruct (if skipws s1 then lookup (pos s1) (cpos s1) else None); [reflexivity|].
+  destruct (in_cmt s1); [reflexivity|].
+  destruct (g_comments g) as [cm|]; [|reflexivity].
+  change (set_in_cmt true (set_cache c s1)) with (set_cache c (set_in_cmt true s1)).
+  rewrite cloop_cache. destruct (cloop cm f (set_in_cmt true s1)); reflexivity.
+Qed.
+
+
 (* ================================================================ A0: runs only extend *)
 Definition rec_good (rec : parser) : Prop :=
-  forall c psq s, cpos_id (cpos s) -> good s (rec c psq s).
+  forall c psq s, sinv s -> good s (rec c psq s).
 
 Section A0.
 Variable rec : parser.
 Hypothesis Hrec : rec_good rec.
 
-Lemma seq_loop_good psq kids : forall acc s, cpos_id (cpos s) -> good s (seq_loop rec psq kids acc s).
+Lemma seq_loop_good psq kids : forall acc s, sinv s -> good s (seq_loop rec psq kids acc s).
 Proof.
   induction kids as [|c kids IH]; intros acc s C; cbn [seq_loop].
   - now apply good_ok0.
@@ -210,7 +534,7 @@ Proof.
     destruct G as [D C1]. eapply good_trans; [exact D | apply IH; exact C1].
 Qed.
 
-Lemma choice_loop_good cp kids : forall s, cpos_id (cpos s) -> good s (choice_loop rec cp kids s).
+Lemma choice_loop_good cp kids : forall s, sinv s -> good s (choice_loop rec cp kids s).
 Proof.
   induction kids as [|c kids IH]; intros s C; cbn [choice_loop].
   - now apply good_ok0.
@@ -223,10 +547,10 @@ Proof.
 Qed.
 
 Lemma rep_loop_good e sep plus k : forall first acc s,
-  cpos_id (cpos s) -> good s (rep_loop rec e sep plus k first acc s).
+  sinv s -> good s (rep_loop rec e sep plus k first acc s).
 Proof.
   induction k as [|k IH]; intros first acc s C; cbn [rep_loop]; [exact I|].
-  assert (Helem : forall acc1 s1, dom s s1 -> cpos_id (cpos s1) ->
+  assert (Helem : forall acc1 s1, dom s s1 -> sinv s1 ->
             good s (match rec e false s1 with
                     | Ok r s2 => if truthy r then rep_loop rec e sep plus k false (acc1 ++ [r]) s2
                                  else Ok (RList acc1) s2
@@ -247,9 +571,9 @@ Proof.
 Qed.
 
 Definition ugr_good (s : st) (o : ugr) : Prop :=
-  match o with UGHit _ _ s1 | UGNone _ s1 => dom s s1 /\ cpos_id (cpos s1) | UGAbort _ => True end.
+  match o with UGHit _ _ s1 | UGNone _ s1 => dom s s1 /\ sinv s1 | UGAbort _ => True end.
 
-Lemma ug_try_good sf cl todo : forall mt s, cpos_id (cpos s) -> ugr_good s (ug_try rec sf cl todo mt s).
+Lemma ug_try_good sf cl todo : forall mt s, sinv s -> ugr_good s (ug_try rec sf cl todo mt s).
 Proof.
   induction todo as [|e todo IH]; intros mt s C; cbn [ug_try].
   - split; [apply dom_refl | exact C].
@@ -269,16 +593,16 @@ Proof.
 Qed.
 
 Definition ugo_good (s : st) (o : ugo) : Prop :=
-  match o with UGDone _ _ s1 => dom s s1 /\ cpos_id (cpos s1) | UGOAbort _ => True end.
+  match o with UGDone _ _ s1 => dom s s1 /\ sinv s1 | UGOAbort _ => True end.
 
 Lemma ug_loop_good sep n : forall todo first sr acc s,
-  cpos_id (cpos s) -> ugo_good s (ug_loop rec sep n todo first sr acc s).
+  sinv s -> ugo_good s (ug_loop rec sep n todo first sr acc s).
 Proof.
   induction n as [|n IH]; intros todo first sr acc s C; destruct todo as [|t0 todo];
     cbn [ug_loop]; try (split; [apply dom_refl | exact C]); try exact I.
   assert (T : forall s1 o, dom s s1 -> ugo_good s1 o -> ugo_good s o).
   { intros s1 o D1. destruct o; cbn; auto; intros [D2 C2]; split; eauto using dom_trans. }
-  assert (Hcont : forall sf sr1 s1, dom s s1 -> cpos_id (cpos s1) ->
+  assert (Hcont : forall sf sr1 s1, dom s s1 -> sinv s1 ->
             ugo_good s (match ug_try rec sf (pos s1) (t0 :: todo) true s1 with
                         | UGHit e r s2 => ug_loop rec sep n (remove_first e (t0 :: todo)) false sr1
                                             ((if truthy sr1 then acc ++ [sr1] else acc) ++ [r]) s2
@@ -392,7 +716,7 @@ Proof.
     rewrite !leave_eol_id by assumption. reflexivity.
 Qed.
 
-Lemma body0_good rec k nd s : rec_good rec -> cpos_id (cpos s) -> good s (body0 rec k nd s).
+Lemma body0_good rec k nd s : rec_good rec -> sinv s -> good s (body0 rec k nd s).
 Proof.
   intros Hrec C. unfold body0. destruct (n_kind nd); try exact I.
   - pose proof (seq_loop_good rec Hrec true (n_kids nd) [] s C) as G.
@@ -427,9 +751,10 @@ Proof.
   induction fuel as [|f IH]; intros nid psq s C; cbn [parse]; [exact I|].
   destruct (get_node g nid) as [nd|] eqn:Hn; [|exact I].
   destruct (is_match_kind (n_kind nd)).
-  - rewrite match_pre_eq. destruct (mpre_good s C) as [D1 C1].
-    pose proof (term_good nid (n_kind nd) psq (mpre s) C1) as G.
-    destruct (term_parse input orc nid (n_kind nd) psq (mpre s)); cbn in G |- *; auto;
+  - rewrite match_pre_eq. pose proof (mprec_good f s C) as G0.
+    destruct (mprec f s) as [r0 s0|s0|w0]; cbn in G0 |- *; auto. destruct G0 as [D1 C1].
+    pose proof (term_good nid (n_kind nd) psq s0 C1) as G.
+    destruct (term_parse input orc nid (n_kind nd) psq s0); cbn in G |- *; auto;
       destruct G as [D2 C2]; split; eauto using dom_trans.
   - cbn. rewrite (body_eq _ _ _ _ _ Hn).
     pose proof (body0_good (parse g input orc false f) f nd s IH C) as G.
@@ -439,17 +764,15 @@ Qed.
 
 
 (* ================================================================ A: re-running is idempotent *)
-Definition rerun_ok (o : out) (s' : st) (o' : out) : Prop :=
-  is_abort o' = true \/ o' = omap (fun s1 => set_pos (pos s1) s') o.
 
 Definition rec_rerun (rec rec' : parser) : Prop :=
-  forall c psq s s', cpos_id (cpos s) -> cpos_id (cpos s') ->
+  forall c psq s s', sinv s -> sinv s' ->
     is_abort (rec c psq s) = false -> dom (ostate s (rec c psq s)) s' -> pos s' = pos s ->
     rerun_ok (rec c psq s) s' (rec' c psq s').
 
 Lemma na_ostate d d' o : is_abort o = false -> ostate d o = ostate d' o.
 Proof. destruct o; cbn; congruence. Qed.
-Lemma good_na s o d : good s o -> is_abort o = false -> dom s (ostate d o) /\ cpos_id (cpos (ostate d o)).
+Lemma good_na s o d : good s o -> is_abort o = false -> dom s (ostate d o) /\ sinv (ostate d o).
 Proof. destruct o; cbn; auto; discriminate. Qed.
 Lemma rerun_ok_pos p o s' o' : rerun_ok o (set_pos p s') o' -> rerun_ok o s' o'.
 Proof.
@@ -467,7 +790,7 @@ Hypothesis Hrr : rec_rerun rec rec'.
 
 (* one child call: either the re-run aborts, or it returns the same result with only the position moved *)
 Lemma call_rerun c psq s s' sf :
-  cpos_id (cpos s) -> cpos_id (cpos s') -> pos s' = pos s ->
+  sinv s -> sinv s' -> pos s' = pos s ->
   is_abort (rec c psq s) = false ->
   dom (ostate s (rec c psq s)) sf -> dom sf s' ->
   is_abort (rec' c psq s') = true \/
@@ -477,7 +800,7 @@ Proof.
 Qed.
 
 Lemma seq_loop_rerun psq kids : forall acc s s',
-  cpos_id (cpos s) -> cpos_id (cpos s') ->
+  sinv s -> sinv s' ->
   is_abort (seq_loop rec psq kids acc s) = false ->
   dom (ostate s (seq_loop rec psq kids acc s)) s' -> pos s' = pos s ->
   rerun_ok (seq_loop rec psq kids acc s) s' (seq_loop rec' psq kids acc s').
@@ -503,13 +826,13 @@ Qed.
 
 
 Lemma call_ok c psq s s' r s1 :
-  rec c psq s = Ok r s1 -> cpos_id (cpos s) -> cpos_id (cpos s') -> pos s' = pos s -> dom s1 s' ->
+  rec c psq s = Ok r s1 -> sinv s -> sinv s' -> pos s' = pos s -> dom s1 s' ->
   is_abort (rec' c psq s') = true \/ rec' c psq s' = Ok r (set_pos (pos s1) s').
 Proof.
   intros E C C' P D. pose proof (Hrr c psq s s' C C') as R. rewrite E in R. cbn in R. now apply R.
 Qed.
 Lemma call_fail c psq s s' s1 :
-  rec c psq s = Fail s1 -> cpos_id (cpos s) -> cpos_id (cpos s') -> pos s' = pos s -> dom s1 s' ->
+  rec c psq s = Fail s1 -> sinv s -> sinv s' -> pos s' = pos s -> dom s1 s' ->
   is_abort (rec' c psq s') = true \/ rec' c psq s' = Fail (set_pos (pos s1) s').
 Proof.
   intros E C C' P D. pose proof (Hrr c psq s s' C C') as R. rewrite E in R. cbn in R. now apply R.
@@ -517,7 +840,7 @@ Qed.
 
 
 Lemma choice_loop_rerun cp kids : forall s s',
-  cpos_id (cpos s) -> cpos_id (cpos s') ->
+  sinv s -> sinv s' ->
   is_abort (choice_loop rec cp kids s) = false ->
   dom (ostate s (choice_loop rec cp kids s)) s' -> pos s' = pos s ->
   rerun_ok (choice_loop rec cp kids s) s' (choice_loop rec' cp kids s').
@@ -544,7 +867,7 @@ Proof.
 Qed.
 
 Lemma rep_loop_rerun e sep plus k : forall k' first acc s s',
-  cpos_id (cpos s) -> cpos_id (cpos s') ->
+  sinv s -> sinv s' ->
   is_abort (rep_loop rec e sep plus k first acc s) = false ->
   dom (ostate s (rep_loop rec e sep plus k first acc s)) s' -> pos s' = pos s ->
   rerun_ok (rep_loop rec e sep plus k first acc s) s' (rep_loop rec' e sep plus k' first acc s').
@@ -559,7 +882,7 @@ Proof.
                      else Ok (RList acc1) (set_pos (pos s) s2)
         | Abort w => Abort w
         end).
-  assert (Helem : forall acc1 s1 s1', cpos_id (cpos s1) -> cpos_id (cpos s1') -> pos s1' = pos s1 ->
+  assert (Helem : forall acc1 s1 s1', sinv s1 -> sinv s1' -> pos s1' = pos s1 ->
             is_abort (elem rec k acc1 s1) = false -> dom (ostate s1 (elem rec k acc1 s1)) s1' ->
             rerun_ok (elem rec k acc1 s1) s1' (elem rec' k' acc1 s1')).
   { intros acc1 s1 s1' C1 C1' P1 NA1 D1. unfold elem in *.
@@ -600,18 +923,162 @@ Proof.
 Qed.
 
 
-Lemma body0_rerun k k' nd : is_unord (n_kind nd) = false ->
-  (forall kk kk' first acc s s' e sep plus, cpos_id (cpos s) -> cpos_id (cpos s') ->
+
+Definition ugr_abort (o : ugr) : bool := match o with UGAbort _ => true | _ => false end.
+Definition ugr_state (d : st) (o : ugr) : st := match o with UGHit _ _ s | UGNone _ s => s | UGAbort _ => d end.
+Definition ugr_map (f : st -> st) (o : ugr) : ugr :=
+  match o with UGHit e r s => UGHit e r (f s) | UGNone mt s => UGNone mt (f s) | UGAbort w => UGAbort w end.
+Definition ugr_rerun_ok (o : ugr) (s' : st) (o' : ugr) : Prop :=
+  ugr_abort o' = true \/ o' = ugr_map (fun s1 => set_pos (pos s1) s') o.
+Lemma ugr_rerun_ok_pos p o s' o' : ugr_rerun_ok o (set_pos p s') o' -> ugr_rerun_ok o s' o'.
+Proof.
+  intros [A|E]; [left; exact A | right]. rewrite E. destruct o; cbn; now rewrite ?set_pos_set_pos.
+Qed.
+Lemma ugr_good_na s o d : ugr_good s o -> ugr_abort o = false ->
+  dom s (ugr_state d o) /\ sinv (ugr_state d o).
+Proof. destruct o; cbn; auto; discriminate. Qed.
+Lemma ugr_na_state d d' o : ugr_abort o = false -> ugr_state d o = ugr_state d' o.
+Proof. destruct o; cbn; congruence. Qed.
+
+Ltac abu A := match type of A with is_abort ?x = true => destruct x; try discriminate A; now left end.
+
+Lemma ug_try_rerun sf cl todo : forall mt s s',
+  sinv s -> sinv s' ->
+  ugr_abort (ug_try rec sf cl todo mt s) = false ->
+  dom (ugr_state s (ug_try rec sf cl todo mt s)) s' -> pos s' = pos s ->
+  ugr_rerun_ok (ug_try rec sf cl todo mt s) s' (ug_try rec' sf cl todo mt s').
+Proof.
+  induction todo as [|e todo IH]; intros mt s s' C C' NA D P; cbn [ug_try] in *.
+  - right. cbn. now rewrite <- P, set_pos_same.
+  - pose proof (Hg e false s C) as G.
+    destruct (rec e false s) as [r s1|s1|w] eqn:E; try discriminate NA; destruct G as [D1 C1].
+    + destruct (truthy r) eqn:T; [destruct sf|].
+      * pose proof (ug_try_good rec Hg true cl todo false (set_pos cl s1) C1) as G2.
+        destruct (ugr_good_na _ _ s1 G2 NA) as [D2 _]. apply dom_set_pos_l_inv in D2.
+        rewrite (ugr_na_state s s1) in D by exact NA.
+        destruct (call_ok e false s s' r s1 E C C' P) as [A|Eq]; [eapply dom_trans; eassumption | abu A |].
+        rewrite Eq, T, set_pos_set_pos. apply ugr_rerun_ok_pos with (p := cl).
+        apply IH; auto using dom_set_pos_r.
+        rewrite (ugr_na_state _ s1) by exact NA. now apply dom_set_pos_r.
+      * cbn in D. destruct (call_ok e false s s' r s1 E C C' P D) as [A|Eq]; [abu A|].
+        rewrite Eq, T. now right.
+      * pose proof (ug_try_good rec Hg sf cl todo mt s1 C1) as G2.
+        destruct (ugr_good_na _ _ s1 G2 NA) as [D2 _].
+        rewrite (ugr_na_state s s1) in D by exact NA.
+        destruct (call_ok e false s s' r s1 E C C' P) as [A|Eq]; [eapply dom_trans; eassumption | abu A |].
+        rewrite Eq, T. apply ugr_rerun_ok_pos with (p := pos s1). apply IH; auto using dom_set_pos_r.
+    + pose proof (ug_try_good rec Hg sf cl todo false (set_pos cl s1) C1) as G2.
+      destruct (ugr_good_na _ _ s1 G2 NA) as [D2 _]. apply dom_set_pos_l_inv in D2.
+      rewrite (ugr_na_state s s1) in D by exact NA.
+      destruct (call_fail e false s s' s1 E C C' P) as [A|Eq]; [eapply dom_trans; eassumption | abu A |].
+      rewrite Eq, set_pos_set_pos. apply ugr_rerun_ok_pos with (p := cl).
+      apply IH; auto using dom_set_pos_r.
+      rewrite (ugr_na_state _ s1) by exact NA. now apply dom_set_pos_r.
+Qed.
+
+Definition ugo_abort (o : ugo) : bool := match o with UGOAbort _ => true | _ => false end.
+Definition ugo_state (d : st) (o : ugo) : st := match o with UGDone _ _ s => s | UGOAbort _ => d end.
+Definition ugo_map (f : st -> st) (o : ugo) : ugo :=
+  match o with UGDone mt acc s => UGDone mt acc (f s) | UGOAbort w => UGOAbort w end.
+Definition ugo_rerun_ok (o : ugo) (s' : st) (o' : ugo) : Prop :=
+  ugo_abort o' = true \/ o' = ugo_map (fun s1 => set_pos (pos s1) s') o.
+Lemma ugo_rerun_ok_pos p o s' o' : ugo_rerun_ok o (set_pos p s') o' -> ugo_rerun_ok o s' o'.
+Proof.
+  intros [A|E]; [left; exact A | right]. rewrite E. destruct o; cbn; now rewrite ?set_pos_set_pos.
+Qed.
+Lemma ugo_good_na s o d : ugo_good s o -> ugo_abort o = false ->
+  dom s (ugo_state d o) /\ sinv (ugo_state d o).
+Proof. destruct o; cbn; auto; discriminate. Qed.
+Lemma ugo_good_trans s s1 o : dom s s1 -> ugo_good s1 o -> ugo_good s o.
+Proof. intros D. destruct o; cbn; auto; intros [D2 C2]; split; eauto using dom_trans. Qed.
+Lemma ugo_na_state d d' o : ugo_abort o = false -> ugo_state d o = ugo_state d' o.
+Proof. destruct o; cbn; congruence. Qed.
+
+Lemma ug_loop_rerun sep n : forall todo first sr acc s s',
+  sinv s -> sinv s' ->
+  ugo_abort (ug_loop rec sep n todo first sr acc s) = false ->
+  dom (ugo_state s (ug_loop rec sep n todo first sr acc s)) s' -> pos s' = pos s ->
+  ugo_rerun_ok (ug_loop rec sep n todo first sr acc s) s' (ug_loop rec' sep n todo first sr acc s').
+Proof.
+  induction n as [|n IH]; intros todo first sr acc s s' C C' NA D P; destruct todo as [|t0 todo];
+    cbn [ug_loop] in *; try discriminate NA; try (right; cbn; now rewrite <- P, set_pos_same).
+  set (cont := fun (rc : parser) (cs : nat) (sf : bool) (sr1 : res) (s1 : st) =>
+        match ug_try rc sf (pos s1) (t0 :: todo) true s1 with
+        | UGHit e r s2 => ug_loop rc sep n (remove_first e (t0 :: todo)) false sr1
+                            ((if truthy sr1 then acc ++ [sr1] else acc) ++ [r]) s2
+        | UGNone mt s2 => UGDone mt acc (set_pos cs s2)
+        | UGAbort w => UGOAbort w
+        end).
+  assert (Gcont : forall cs sf sr1 s1, sinv s1 -> ugo_good s1 (cont rec cs sf sr1 s1)).
+  { intros cs sf sr1 s1 C1. unfold cont.
+    pose proof (ug_try_good rec Hg sf (pos s1) (t0 :: todo) true s1 C1) as G.
+    destruct (ug_try rec sf (pos s1) (t0 :: todo) true s1) as [e r s2|mt s2|w]; cbn in G |- *; auto;
+      destruct G as [D2 C2].
+    - eapply ugo_good_trans; [exact D2 | now apply ug_loop_good].
+    - split; auto using dom_set_pos_r. }
+  assert (Hcont : forall cs sf sr1 s1 s1', sinv s1 -> sinv s1' -> pos s1' = pos s1 ->
+            ugo_abort (cont rec cs sf sr1 s1) = false -> dom (ugo_state s1 (cont rec cs sf sr1 s1)) s1' ->
+            ugo_rerun_ok (cont rec cs sf sr1 s1) s1' (cont rec' cs sf sr1 s1')).
+  { intros cs sf sr1 s1 s1' C1 C1' P1 NA1 D1. unfold cont in *. rewrite P1.
+    pose proof (ug_try_rerun sf (pos s1) (t0 :: todo) true s1 s1' C1 C1') as R.
+    pose proof (ug_try_good rec Hg sf (pos s1) (t0 :: todo) true s1 C1) as G.
+    destruct (ug_try rec sf (pos s1) (t0 :: todo) true s1) as [e r s2|mt s2|w] eqn:E; try discriminate NA1;
+      destruct G as [D2 C2].
+    - pose proof (ug_loop_good rec Hg sep n (remove_first e (t0 :: todo)) false sr1
+                    ((if truthy sr1 then acc ++ [sr1] else acc) ++ [r]) s2 C2) as G3.
+      destruct (ugo_good_na _ _ s2 G3 NA1) as [D3 _].
+      rewrite (ugo_na_state s1 s2) in D1 by exact NA1.
+      destruct (R eq_refl (dom_trans _ _ _ D3 D1) P1) as [A|Eq].
+      { destruct (ug_try rec' sf (pos s1) (t0 :: todo) true s1'); try discriminate A. now left. }
+      rewrite Eq. cbn [ugr_map]. apply ugo_rerun_ok_pos with (p := pos s2).
+      apply IH; auto using dom_set_pos_r.
+    - cbn in D1. apply dom_set_pos_l_inv in D1.
+      destruct (R eq_refl D1 P1) as [A|Eq].
+      { destruct (ug_try rec' sf (pos s1) (t0 :: todo) true s1'); try discriminate A. now left. }
+      rewrite Eq. cbn [ugr_map]. right. cbn. now rewrite set_pos_set_pos. }
+  assert (Hplain : ugo_abort (cont rec (pos s) false sr s) = false ->
+                   dom (ugo_state s (cont rec (pos s) false sr s)) s' ->
+                   ugo_rerun_ok (cont rec (pos s) false sr s) s' (cont rec' (pos s') false sr s')).
+  { intros NA0 D0. rewrite P. now apply Hcont. }
+  destruct sep as [sp|]; [|exact (Hplain NA D)].
+  destruct first; [exact (Hplain NA D)|].
+  pose proof (Hg sp false s C) as G.
+  destruct (rec sp false s) as [sr1 s1|s1|w] eqn:E; try discriminate NA; destruct G as [D1 C1].
+  - change (ugo_abort (cont rec (pos s) false sr1 s1) = false) in NA.
+    change (dom (ugo_state s (cont rec (pos s) false sr1 s1)) s') in D.
+    destruct (ugo_good_na _ _ s1 (Gcont (pos s) false sr1 s1 C1) NA) as [D2 _].
+    rewrite (ugo_na_state s s1) in D by exact NA.
+    destruct (call_ok sp false s s' sr1 s1 E C C' P) as [A|Eq]; [eapply dom_trans; eassumption | |].
+    { destruct (rec' sp false s'); try discriminate A. now left. }
+    rewrite Eq. change (ugo_rerun_ok (cont rec (pos s) false sr1 s1) s' (cont rec' (pos s') false sr1 (set_pos (pos s1) s'))).
+    rewrite P. apply ugo_rerun_ok_pos with (p := pos s1). apply Hcont; auto using dom_set_pos_r.
+  - change (ugo_abort (cont rec (pos s) true sr (set_pos (pos s) s1)) = false) in NA.
+    change (dom (ugo_state s (cont rec (pos s) true sr (set_pos (pos s) s1))) s') in D.
+    destruct (ugo_good_na _ _ s1 (Gcont (pos s) true sr (set_pos (pos s) s1) C1) NA) as [D2 _].
+    apply dom_set_pos_l_inv in D2.
+    rewrite (ugo_na_state s s1) in D by exact NA.
+    destruct (call_fail sp false s s' s1 E C C' P) as [A|Eq]; [eapply dom_trans; eassumption | |].
+    { destruct (rec' sp false s'); try discriminate A. now left. }
+    rewrite Eq.
+    change (ugo_rerun_ok (cont rec (pos s) true sr (set_pos (pos s) s1)) s'
+              (cont rec' (pos s') true sr (set_pos (pos s') (set_pos (pos s1) s')))).
+    rewrite P, set_pos_set_pos. apply ugo_rerun_ok_pos with (p := pos s).
+    apply Hcont; auto using dom_set_pos_r.
+    rewrite (ugo_na_state _ s1) by exact NA. now apply dom_set_pos_r.
+Qed.
+
+Lemma body0_rerun k k' nd :
+  (forall kk kk' first acc s s' e sep plus, sinv s -> sinv s' ->
      is_abort (rep_loop rec e sep plus kk first acc s) = false ->
      dom (ostate s (rep_loop rec e sep plus kk first acc s)) s' -> pos s' = pos s ->
      rerun_ok (rep_loop rec e sep plus kk first acc s) s' (rep_loop rec' e sep plus kk' first acc s')) ->
-  forall s s', cpos_id (cpos s) -> cpos_id (cpos s') ->
+  forall s s', sinv s -> sinv s' ->
   is_abort (body0 rec k nd s) = false ->
   dom (ostate s (body0 rec k nd s)) s' -> pos s' = pos s ->
   rerun_ok (body0 rec k nd s) s' (body0 rec' k' nd s').
 Proof.
-  intros NU Hrep s s' C C' NA D P. unfold body0 in *. rewrite P.
-  destruct (n_kind nd); try discriminate NA; try discriminate NU.
+  intros Hrep s s' C C' NA D P. unfold body0 in *. rewrite P.
+  destruct (n_kind nd); try discriminate NA.
   - (* Sequence *)
     pose proof (seq_loop_rerun true (n_kids nd) [] s s' C C') as R.
     destruct (seq_loop rec true (n_kids nd) [] s) as [r s1|s1|w] eqn:E; try discriminate NA.
@@ -642,6 +1109,22 @@ Proof.
       now rewrite set_pos_set_pos.
   - destruct (n_kids nd) as [|e l]; [discriminate NA|]. now apply Hrep.
   - destruct (n_kids nd) as [|e l]; [discriminate NA|]. now apply Hrep.
+  - (* UnorderedGroup *)
+    destruct (n_kids nd) as [|e l] eqn:K; [discriminate NA|]. rewrite <- K in *.
+    pose proof (ug_loop_rerun (n_sep nd) (S (length (n_kids nd))) (n_kids nd) true RNone [] s s' C C') as R.
+    destruct (ug_loop rec (n_sep nd) (S (length (n_kids nd))) (n_kids nd) true RNone [] s) as [mt acc s1|w] eqn:E;
+      try discriminate NA.
+    destruct mt.
+    + cbn in D. destruct (R eq_refl D P) as [A|Eq].
+      { destruct (ug_loop rec' _ _ _ _ _ _ s'); try discriminate A. now left. }
+      rewrite Eq. now right.
+    + cbn in D. assert (D1 : dom s1 s').
+      { eapply dom_trans; [|exact D]. eapply dom_trans; [|apply dom_reg_fail]. apply dom_set_pos_r, dom_refl. }
+      destruct (R eq_refl D1 P) as [A|Eq].
+      { destruct (ug_loop rec' _ _ _ _ _ _ s'); try discriminate A. now left. }
+      rewrite Eq. cbn. right. unfold nm_raise. cbn. rewrite set_pos_set_pos.
+      assert (D2 : dom (reg_fail (pos s) (set_pos (pos s) s1)) (set_pos (pos s) s')) by now apply dom_set_pos_r.
+      rewrite (reg_fail_saturated _ _ _ D2). now rewrite pos_reg_fail.
   - (* And *)
     pose proof (seq_loop_rerun false (n_kids nd) [] s s' C C') as R.
     destruct (seq_loop rec false (n_kids nd) [] s) as [r s1|s1|w] eqn:E; try discriminate NA;
@@ -671,21 +1154,22 @@ Proof.
   destruct f' as [|f']; [now left|]. cbn [parse].
   destruct (get_node g nid) as [nd|] eqn:Hn; [|discriminate NA].
   destruct (is_match_kind (n_kind nd)) eqn:MK.
-  - rewrite !match_pre_eq in *. destruct (mpre_good s C) as [D1 C1].
-    pose proof (term_good nid (n_kind nd) psq (mpre s) C1) as G.
-    pose proof (term_rerun nid (n_kind nd) psq (mpre s) (set_pos (pos (mpre s)) s')) as R.
-    destruct (term_parse input orc nid (n_kind nd) psq (mpre s)) as [r s1|s1|w] eqn:E;
-      try discriminate NA; destruct G as [D2 C2]; cbn in D.
-    + assert (Dm : dom (mpre s) s') by (eapply dom_trans; eassumption).
-      rewrite (mpre_rerun s s' C C' Dm P).
-      rewrite (R eq_refl (dom_set_pos_r _ _ _ D) eq_refl). cbn. right. cbn. now rewrite set_pos_set_pos.
-    + assert (Dm : dom (mpre s) s') by (eapply dom_trans; eassumption).
-      rewrite (mpre_rerun s s' C C' Dm P).
-      rewrite (R eq_refl (dom_set_pos_r _ _ _ D) eq_refl). cbn. right. cbn. now rewrite set_pos_set_pos.
-  - cbn in *. destruct (node_free4 _ _ Hn) as (_ & _ & _ & NU).
+  - rewrite !match_pre_eq in *.
+    pose proof (mprec_good f s C) as G0. pose proof (mprec_rerun f f' s s' C C') as R0.
+    destruct (mprec f s) as [r0 s0|s0|w0] eqn:E0; try discriminate NA.
+    + destruct G0 as [D1 C1].
+      pose proof (term_good nid (n_kind nd) psq s0 C1) as G.
+      pose proof (term_rerun nid (n_kind nd) psq s0 (set_pos (pos s0) s')) as R.
+      destruct (term_parse input orc nid (n_kind nd) psq s0) as [r s1|s1|w] eqn:E;
+        try discriminate NA; destruct G as [D2 C2]; cbn in D;
+        (assert (Dm : dom s0 s') by (eapply dom_trans; eassumption));
+        (destruct (R0 eq_refl Dm P) as [A0|Eq0]; [ab A0|]); rewrite Eq0; cbn [omap];
+        rewrite (R eq_refl (dom_set_pos_r _ _ _ D) eq_refl); cbn; right; cbn; now rewrite set_pos_set_pos.
+    + cbn in D. destruct (R0 eq_refl D P) as [A0|Eq0]; [ab A0|]. rewrite Eq0. now right.
+  - cbn in *.
     rewrite !(body_eq _ _ _ _ _ Hn) in *. rewrite P.
-    pose proof (body0_rerun (parse g input orc false f) (parse g input orc false f') (parse_good f) (IH f') f f' nd NU) as R.
-    assert (Hrep : forall kk kk' first acc s s' e sep plus, cpos_id (cpos s) -> cpos_id (cpos s') ->
+    pose proof (body0_rerun (parse g input orc false f) (parse g input orc false f') (parse_good f) (IH f') f f' nd) as R.
+    assert (Hrep : forall kk kk' first acc s s' e sep plus, sinv s -> sinv s' ->
        is_abort (rep_loop (parse g input orc false f) e sep plus kk first acc s) = false ->
        dom (ostate s (rep_loop (parse g input orc false f) e sep plus kk first acc s)) s' -> pos s' = pos s ->
        rerun_ok (rep_loop (parse g input orc false f) e sep plus kk first acc s) s'
@@ -707,7 +1191,7 @@ Definition expected (cr : cres) (np : nat) (s' : st) : out :=
 
 (* a cache entry is what the un-memoized interpreter returns at that position, from any later state *)
 Definition valid (nid p : nat) (cr : cres) (np : nat) (s : st) : Prop :=
-  forall fuel psq s', cpos_id (cpos s') -> dom s s' -> pos s' = p ->
+  forall fuel psq s', sinv s' -> dom s s' -> pos s' = p ->
     is_abort (parse g input orc false fuel nid psq s') = true \/
     parse g input orc false fuel nid psq s' = expected cr np s'.
 
@@ -720,7 +1204,7 @@ Proof.
 Qed.
 
 Definition rec_sim (recN recM : parser) : Prop :=
-  forall c psq (cch : cache_t) sn, cpos_id (cpos sn) -> INV cch sn ->
+  forall c psq (cch : cache_t) sn, sinv sn -> INV cch sn ->
     is_abort (recN c psq sn) = false ->
     exists cch', recM c psq (set_cache cch sn) = omap (set_cache cch') (recN c psq sn)
                  /\ INV cch' (ostate sn (recN c psq sn)).
@@ -731,15 +1215,15 @@ Hypothesis Hg : rec_good recN.
 Hypothesis Hs : rec_sim recN recM.
 
 Lemma sim_ok c psq (cch : cache_t) s r s1 :
-  recN c psq s = Ok r s1 -> cpos_id (cpos s) -> INV cch s ->
-  exists cch', recM c psq (set_cache cch s) = Ok r (set_cache cch' s1) /\ INV cch' s1 /\ cpos_id (cpos s1) /\ dom s s1.
+  recN c psq s = Ok r s1 -> sinv s -> INV cch s ->
+  exists cch', recM c psq (set_cache cch s) = Ok r (set_cache cch' s1) /\ INV cch' s1 /\ sinv s1 /\ dom s s1.
 Proof.
   intros E C I. pose proof (Hs c psq cch s C I) as R. pose proof (Hg c psq s C) as G.
   rewrite E in R, G. destruct (R eq_refl) as (cch' & Eq & I'). destruct G. exists cch'. auto.
 Qed.
 Lemma sim_fail c psq (cch : cache_t) s s1 :
-  recN c psq s = Fail s1 -> cpos_id (cpos s) -> INV cch s ->
-  exists cch', recM c psq (set_cache cch s) = Fail (set_cache cch' s1) /\ INV cch' s1 /\ cpos_id (cpos s1) /\ dom s s1.
+  recN c psq s = Fail s1 -> sinv s -> INV cch s ->
+  exists cch', recM c psq (set_cache cch s) = Fail (set_cache cch' s1) /\ INV cch' s1 /\ sinv s1 /\ dom s s1.
 Proof.
   intros E C I. pose proof (Hs c psq cch s C I) as R. pose proof (Hg c psq s C) as G.
   rewrite E in R, G. destruct (R eq_refl) as (cch' & Eq & I'). destruct G. exists cch'. auto.
@@ -749,7 +1233,7 @@ Definition sim_goal (oN : out) (oM : out) (s : st) : Prop :=
   exists cch' : cache_t, oM = omap (set_cache cch') oN /\ INV cch' (ostate s oN).
 
 Lemma seq_loop_sim psq kids : forall acc (cch : cache_t) s,
-  cpos_id (cpos s) -> INV cch s -> is_abort (seq_loop recN psq kids acc s) = false ->
+  sinv s -> INV cch s -> is_abort (seq_loop recN psq kids acc s) = false ->
   sim_goal (seq_loop recN psq kids acc s) (seq_loop recM psq kids acc (set_cache cch s)) s.
 Proof.
   induction kids as [|c kids IH]; intros acc cch s C I NA; cbn [seq_loop] in *.
@@ -763,7 +1247,7 @@ Proof.
 Qed.
 
 Lemma choice_loop_sim cp kids : forall (cch : cache_t) s,
-  cpos_id (cpos s) -> INV cch s -> is_abort (choice_loop recN cp kids s) = false ->
+  sinv s -> INV cch s -> is_abort (choice_loop recN cp kids s) = false ->
   sim_goal (choice_loop recN cp kids s) (choice_loop recM cp kids (set_cache cch s)) s.
 Proof.
   induction kids as [|c kids IH]; intros cch s C I NA; cbn [choice_loop] in *.
@@ -781,7 +1265,7 @@ Proof.
 Qed.
 
 Lemma rep_loop_sim e sep plus k : forall first acc (cch : cache_t) s,
-  cpos_id (cpos s) -> INV cch s -> is_abort (rep_loop recN e sep plus k first acc s) = false ->
+  sinv s -> INV cch s -> is_abort (rep_loop recN e sep plus k first acc s) = false ->
   sim_goal (rep_loop recN e sep plus k first acc s) (rep_loop recM e sep plus k first acc (set_cache cch s)) s.
 Proof.
   induction k as [|k IH]; intros first acc cch s C I NA; cbn [rep_loop] in *; [discriminate NA|].
@@ -794,7 +1278,7 @@ Proof.
                      else Ok (RList acc1) (set_pos (pos s) s2)
         | Abort w => Abort w
         end).
-  assert (Helem : forall acc1 (cch1 : cache_t) s1, cpos_id (cpos s1) -> INV cch1 s1 ->
+  assert (Helem : forall acc1 (cch1 : cache_t) s1, sinv s1 -> INV cch1 s1 ->
             is_abort (elem recN acc1 s1) = false ->
             sim_goal (elem recN acc1 s1) (elem recM acc1 (set_cache cch1 s1)) s1).
   { intros acc1 cch1 s1 C1 I1 NA1. unfold elem in *.
@@ -826,12 +1310,76 @@ Proof.
   eapply INV_mono; [apply dom_reg_fail | exact I].
 Qed.
 
-Lemma body0_sim k nd : is_unord (n_kind nd) = false -> forall (cch : cache_t) s,
-  cpos_id (cpos s) -> INV cch s -> is_abort (body0 recN k nd s) = false ->
+Definition ugr_sim_goal (oN oM : ugr) (s : st) : Prop :=
+  exists cch' : cache_t, oM = ugr_map (set_cache cch') oN /\ INV cch' (ugr_state s oN).
+Definition ugo_sim_goal (oN oM : ugo) (s : st) : Prop :=
+  exists cch' : cache_t, oM = ugo_map (set_cache cch') oN /\ INV cch' (ugo_state s oN).
+
+Lemma ug_try_sim sf cl todo : forall mt (cch : cache_t) s,
+  sinv s -> INV cch s -> ugr_abort (ug_try recN sf cl todo mt s) = false ->
+  ugr_sim_goal (ug_try recN sf cl todo mt s) (ug_try recM sf cl todo mt (set_cache cch s)) s.
+Proof.
+  induction todo as [|e todo IH]; intros mt cch s C I NA; cbn [ug_try] in *.
+  - exists cch. auto.
+  - destruct (recN e false s) as [r s1|s1|w] eqn:E; try discriminate NA.
+    + destruct (sim_ok e false cch s r s1 E C I) as (cch1 & Eq & I1 & C1 & D1). rewrite Eq.
+      destruct (truthy r); [destruct sf|].
+      * assert (I1' : INV cch1 (set_pos cl s1)) by (eapply INV_mono; [apply dom_set_pos_r, dom_refl | exact I1]).
+        destruct (IH false cch1 (set_pos cl s1) C1 I1' NA) as (cch2 & Eq2 & I2).
+        exists cch2. split; [exact Eq2|]. now rewrite (ugr_na_state s (set_pos cl s1)).
+      * exists cch1. auto.
+      * destruct (IH mt cch1 s1 C1 I1 NA) as (cch2 & Eq2 & I2).
+        exists cch2. split; [exact Eq2|]. now rewrite (ugr_na_state s s1).
+    + destruct (sim_fail e false cch s s1 E C I) as (cch1 & Eq & I1 & C1 & D1). rewrite Eq.
+      assert (I1' : INV cch1 (set_pos cl s1)) by (eapply INV_mono; [apply dom_set_pos_r, dom_refl | exact I1]).
+      destruct (IH false cch1 (set_pos cl s1) C1 I1' NA) as (cch2 & Eq2 & I2).
+      exists cch2. split; [exact Eq2|]. now rewrite (ugr_na_state s (set_pos cl s1)).
+Qed.
+
+Lemma ug_loop_sim sep n : forall todo first sr acc (cch : cache_t) s,
+  sinv s -> INV cch s -> ugo_abort (ug_loop recN sep n todo first sr acc s) = false ->
+  ugo_sim_goal (ug_loop recN sep n todo first sr acc s) (ug_loop recM sep n todo first sr acc (set_cache cch s)) s.
+Proof.
+  induction n as [|n IH]; intros todo first sr acc cch s C I NA; destruct todo as [|t0 todo];
+    cbn [ug_loop] in *; try discriminate NA; try (exists cch; now auto).
+  cbn [pos set_cache].
+  set (cont := fun (rc : parser) (sf : bool) (sr1 : res) (s1 : st) =>
+        match ug_try rc sf (pos s1) (t0 :: todo) true s1 with
+        | UGHit e r s2 => ug_loop rc sep n (remove_first e (t0 :: todo)) false sr1
+                            ((if truthy sr1 then acc ++ [sr1] else acc) ++ [r]) s2
+        | UGNone mt s2 => UGDone mt acc (set_pos (pos s) s2)
+        | UGAbort w => UGOAbort w
+        end).
+  assert (Hcont : forall sf sr1 (cch1 : cache_t) s1, sinv s1 -> INV cch1 s1 ->
+            ugo_abort (cont recN sf sr1 s1) = false ->
+            ugo_sim_goal (cont recN sf sr1 s1) (cont recM sf sr1 (set_cache cch1 s1)) s1).
+  { intros sf sr1 cch1 s1 C1 I1 NA1. unfold cont in *. cbn [pos set_cache].
+    pose proof (ug_try_sim sf (pos s1) (t0 :: todo) true cch1 s1 C1 I1) as R.
+    pose proof (ug_try_good recN Hg sf (pos s1) (t0 :: todo) true s1 C1) as G.
+    destruct (ug_try recN sf (pos s1) (t0 :: todo) true s1) as [e r s2|mt s2|w] eqn:E; try discriminate NA1;
+      destruct G as [D2 C2]; destruct (R eq_refl) as (cch2 & Eq & I2); rewrite Eq; cbn [ugr_map].
+    - destruct (IH (remove_first e (t0 :: todo)) false sr1 ((if truthy sr1 then acc ++ [sr1] else acc) ++ [r])
+                   cch2 s2 C2 I2 NA1) as (cch3 & Eq3 & I3).
+      exists cch3. split; [exact Eq3|]. now rewrite (ugo_na_state s1 s2).
+    - exists cch2. split; [reflexivity|]. cbn. eapply INV_mono; [apply dom_set_pos_r, dom_refl | exact I2]. }
+  destruct sep as [sp|]; [|exact (Hcont false sr cch s C I NA)].
+  destruct first; [exact (Hcont false sr cch s C I NA)|].
+  destruct (recN sp false s) as [sr1 s1|s1|w] eqn:E; try discriminate NA.
+  - destruct (sim_ok sp false cch s sr1 s1 E C I) as (cch1 & Eq & I1 & C1 & D1). rewrite Eq.
+    destruct (Hcont false sr1 cch1 s1 C1 I1 NA) as (cch2 & Eq2 & I2).
+    exists cch2. split; [exact Eq2|]. now rewrite (ugo_na_state s s1).
+  - destruct (sim_fail sp false cch s s1 E C I) as (cch1 & Eq & I1 & C1 & D1). rewrite Eq.
+    assert (I1' : INV cch1 (set_pos (pos s) s1)) by (eapply INV_mono; [apply dom_set_pos_r, dom_refl | exact I1]).
+    destruct (Hcont true sr cch1 (set_pos (pos s) s1) C1 I1' NA) as (cch2 & Eq2 & I2).
+    exists cch2. split; [exact Eq2|]. now rewrite (ugo_na_state s (set_pos (pos s) s1)).
+Qed.
+
+Lemma body0_sim k nd : forall (cch : cache_t) s,
+  sinv s -> INV cch s -> is_abort (body0 recN k nd s) = false ->
   sim_goal (body0 recN k nd s) (body0 recM k nd (set_cache cch s)) s.
 Proof.
-  intros NU cch s C I NA. unfold body0 in *. cbn [pos set_cache].
-  destruct (n_kind nd); try discriminate NA; try discriminate NU.
+  intros cch s C I NA. unfold body0 in *. cbn [pos set_cache].
+  destruct (n_kind nd); try discriminate NA.
   - pose proof (seq_loop_sim true (n_kids nd) [] cch s C I) as R.
     destruct (seq_loop recN true (n_kids nd) [] s) as [r s1|s1|w] eqn:E; try discriminate NA;
       destruct (R eq_refl) as (cch1 & Eq & I1); rewrite Eq; cbn; exists cch1.
@@ -852,6 +1400,16 @@ Proof.
       split; [reflexivity|]. cbn. eapply INV_mono; [apply dom_set_pos_r, dom_refl | exact I1].
   - destruct (n_kids nd) as [|e l]; [discriminate NA|]. now apply rep_loop_sim.
   - destruct (n_kids nd) as [|e l]; [discriminate NA|]. now apply rep_loop_sim.
+  - destruct (n_kids nd) as [|e l] eqn:K; [discriminate NA|]. rewrite <- K in *.
+    pose proof (ug_loop_sim (n_sep nd) (S (length (n_kids nd))) (n_kids nd) true RNone [] cch s C I) as R.
+    destruct (ug_loop recN (n_sep nd) (S (length (n_kids nd))) (n_kids nd) true RNone [] s) as [mt acc s1|w] eqn:E;
+      try discriminate NA.
+    destruct (R eq_refl) as (cch1 & Eq & I1). rewrite Eq. cbn [ugo_map]. cbn in I1.
+    destruct mt.
+    + exists cch1. auto.
+    + assert (I1' : INV cch1 (set_pos (pos s) s1)) by (eapply INV_mono; [apply dom_set_pos_r, dom_refl | exact I1]).
+      destruct (raise_sim (pos s) cch1 (set_pos (pos s) s1) I1') as (cch2 & Eq2 & I2).
+      exists cch2. split; [exact Eq2|]. cbn in I2 |- *. exact I2.
   - pose proof (seq_loop_sim false (n_kids nd) [] cch s C I) as R.
     destruct (seq_loop recN false (n_kids nd) [] s) as [r s1|s1|w] eqn:E; try discriminate NA;
       destruct (R eq_refl) as (cch1 & Eq & I1); rewrite Eq; cbn; exists cch1;
@@ -915,11 +1473,14 @@ Proof.
   destruct (get_node g nid) as [nd|] eqn:Hn; [|discriminate NA].
   destruct (is_match_kind (n_kind nd)) eqn:MK.
   - (* terminals are not memoized *)
-    rewrite (parse_S false), Hn, MK. rewrite !match_pre_eq in *. rewrite mpre_cache, term_cache.
-    exists cch. destruct (term_parse input orc nid (n_kind nd) psq (mpre sn)) as [r s1|s1|w] eqn:E;
-      try discriminate NA; (split; [reflexivity|]); cbn;
-      rewrite (parse_S false), Hn, MK, match_pre_eq, E in GG; destruct GG as [D1 _];
-      (eapply INV_mono; [exact D1 | exact I]).
+    rewrite (parse_S false), Hn, MK. rewrite !match_pre_eq in *. rewrite mprec_cache.
+    rewrite (parse_S false), Hn, MK, match_pre_eq in GG.
+    exists cch. destruct (mprec f sn) as [r0 s0|s0|w0] eqn:E0; try discriminate NA; cbn [omap].
+    + rewrite term_cache.
+      destruct (term_parse input orc nid (n_kind nd) psq s0) as [r s1|s1|w] eqn:E;
+        try discriminate NA; (split; [reflexivity|]); cbn; destruct GG as [D1 _];
+        (eapply INV_mono; [exact D1 | exact I]).
+    + split; [reflexivity|]. cbn. destruct GG as [D1 _]. eapply INV_mono; [exact D1 | exact I].
   - cbn [pos set_cache cache].
     destruct (clookup nid (pos sn) cch) as [[cr np]|] eqn:L.
     + (* cache hit *)
@@ -928,9 +1489,8 @@ Proof.
       * rewrite Eq. exists cch. destruct cr; (split; [reflexivity|]); cbn;
           (eapply INV_mono; [apply dom_set_pos_r, dom_refl | exact I]).
     + (* cache miss *)
-      destruct (node_free4 _ _ Hn) as (_ & _ & _ & NU).
       cbn in NA. rewrite (body_eq _ _ _ _ _ Hn) in NA. rewrite (body_eq _ _ _ _ _ Hn).
-      pose proof (body0_sim _ _ (parse_good f) IH f nd NU cch sn C I) as R.
+      pose proof (body0_sim _ _ (parse_good f) IH f nd cch sn C I) as R.
       assert (Hnm : parse g input orc false (S f) nid psq sn =
                     match body0 (parse g input orc false f) f nd sn with
                     | Ok r s1 => Ok (post nid nd r) s1
@@ -968,8 +1528,9 @@ Theorem memo_safe c fuel :
   not_aborted (run g c orc false fuel input) ->
   run g c orc true fuel input = run g c orc false fuel input.
 Proof.
-  unfold run. intro NA.
-  assert (C0 : cpos_id (cpos (init_st c))) by (intros k v L; discriminate L).
+  unfold run. intros NA.
+  assert (C0 : sinv (init_st c)).
+  { split; [reflexivity|]. right. unfold cpos_ok. destruct (g_comments g); intros k v L; discriminate L. }
   assert (I0 : INV [] (init_st c)) by (intros nid p cr np L; discriminate L).
   pose proof (parse_sim fuel (g_top g) false [] (init_st c) C0 I0) as R.
   change (set_cache [] (init_st c)) with (init_st c) in R.
@@ -978,3 +1539,16 @@ Proof.
 Qed.
 
 End Memo.
+
+(* memo_safe with two different (sufficient) fuels, by fuel monotonicity *)
+Theorem memo_safe_any_fuel :
+  forall g cfg orc f f' input,
+    ctx_constant g = true ->
+    not_aborted (run g cfg orc false f input) -> f <= f' ->
+    run g cfg orc true f' input = run g cfg orc false f input.
+Proof.
+  intros g cfg orc f f' input Hc Hn L.
+  pose proof (memo_safe g input orc Hc cfg f Hn) as E.
+  rewrite <- E. apply run_fuel_mono; [exact L|]. rewrite E.
+  destruct (run g cfg orc false f input); try discriminate. contradiction.
+Qed.
